@@ -49,6 +49,12 @@ NonLeaf(h) ==
        {Dct(<<IntC(1), H(r)>>)} \cup
        {Attr(Dct(<<StrC("a"), H(r)>>), f) : f \in {"a", "b", "zip"}} \cup
        {Sub(Dct(<<StrC("a"), H(r)>>), ky) : ky \in {StrC("a"), StrC("b"), Name("e")}} \cup
+       \* a key that is not hashable; a call whose function is itself a subscript (e.a[1](x), e.a[int](x))
+       {Sub(Dct(<<StrC("a"), H(r)>>), Lst(<<StrC("a")>>))} \cup
+       \* (the receiver is an untyped object: a parameter or an attribute of one; for a receiver of KNOWN type without such a
+       \* property the library's AttributeError is pinned by the repository's own tests)
+       {CallP(Sub(Attr(rc, "a"), ix), <<H(r)>>) :
+            rc \in {Name(sc[i]) : i \in 1..Len(sc)} \cup {Attr(Name(sc[Len(sc)]), "value")}, ix \in {IntC(1), Name("int")}} \cup
        {Meth(H(sp[1]), "Select", <<Lam1("j", Hole(sp[2], Append(sc, "j")))>>) : sp \in Split2(r)} \cup
        {Fn("Where", <<H(sp[1]), Lam1("e", Hole(sp[2], Append(sc, "e")))>>) : sp \in Split2(r)}
 
